@@ -8,7 +8,7 @@ From BVGen Require Import StatusTable.
 
 Definition set_faults (cfg : config) (f : hookname -> nat -> bool) : config :=
   mkConfig (c_dry cfg) (c_stop cfg) (c_show_skipped cfg) (c_expr cfg) (c_hooks cfg) f
-           (c_hook_cleanups cfg) (c_wip cfg) (c_cont cfg) (c_excl cfg).
+           (c_hook_cleanups cfg) (c_wip cfg) (c_cont cfg) (c_aborts cfg) (c_excl cfg).
 
 (* ------------------------------------------------------------------ (B) frames *)
 Definition na_steps (steps : list step) : bool :=
@@ -23,6 +23,9 @@ Definition na_feature (f : feature) : bool :=
 
 Lemma na_steps_app a b : na_steps (a ++ b) = na_steps a && na_steps b.
 Proof. apply forallb_app. Qed.
+
+(* no hook calls context.abort(): the assumption under which a run leaves the state as it found it *)
+Definition no_hook_aborts (c : config) : Prop := forall h k, c_aborts c h k = false.
 
 (* the state after is the state before, except that the top frame may have grown *)
 Definition grows (st st' : rstate) : Prop :=
@@ -43,16 +46,16 @@ Qed.
 Lemma set_aborted_false st : set_aborted st false = st.
 Proof. unfold set_aborted. rewrite orb_false_r. apply state_eta. Qed.
 
-Lemma run_hook_grows c st h k st' r ev :
+Lemma run_hook_grows c (Hna : no_hook_aborts c) st h k st' r ev :
   is_all_hook h = false -> run_hook c st h k = (st', r, ev) -> grows st st'.
 Proof.
   intros Hh. unfold run_hook. rewrite Hh.
   destruct (c_dry c || negb (c_hooks c h)).
   - intros E; inversion E; subst. apply grows_refl.
-  - destruct (c_faults c h k); intros E; inversion E; subst; rewrite ?set_aborted_false; apply add_cleanups_grows.
+  - rewrite (Hna h k). destruct (c_faults c h k); intros E; inversion E; subst; cbn [orb]; rewrite ?set_aborted_false; apply add_cleanups_grows.
 Qed.
 
-Lemma run_tag_hooks_grows c h (Hh : is_all_hook h = false) tags : forall st st' r ev,
+Lemma run_tag_hooks_grows c (Hna : no_hook_aborts c) h (Hh : is_all_hook h = false) tags : forall st st' r ev,
   run_tag_hooks c st h tags = (st', r, ev) -> grows st st'.
 Proof.
   induction tags as [|t tl0 IH]; intros st st' r ev; cbn [run_tag_hooks].
@@ -60,10 +63,10 @@ Proof.
   - destruct (run_hook c st h t) as [[st1 b1] e1] eqn:E1.
     destruct (run_tag_hooks c st1 h tl0) as [[st2 b2] e2] eqn:E2.
     intros E; inversion E; subst.
-    eapply grows_trans; [eapply run_hook_grows; eauto | eapply IH; eauto].
+    eapply grows_trans; [eapply (run_hook_grows _ Hna); eauto | eapply IH; eauto].
 Qed.
 
-Lemma run_step_grows c st wip scid s st' status skip ev :
+Lemma run_step_grows c (Hna : no_hook_aborts c) st wip scid s st' status skip ev :
   step_aborts (st_kind s) = false ->
   run_step c st wip scid s = (st', status, skip, ev) -> grows st st'.
 Proof.
@@ -72,21 +75,21 @@ Proof.
               run_defined_step c st wip scid k (st_id s) = (st', status, skip, ev) -> grows st st').
   { intros k Hk. unfold run_defined_step.
     destruct (run_hook c st HBeforeStep (st_id s)) as [[st1 rb] eb] eqn:E1.
-    apply run_hook_grows in E1; [|reflexivity].
+    apply (run_hook_grows _ Hna) in E1; [|reflexivity].
     destruct rb.
     - destruct (run_hook c st1 HAfterStep (st_id s)) as [[st3 ra] ea] eqn:E3.
-      apply run_hook_grows in E3; [|reflexivity].
+      apply (run_hook_grows _ Hna) in E3; [|reflexivity].
       intros E; inversion E; subst. eapply grows_trans; eauto.
     - rewrite Hk, set_aborted_false.
       destruct (run_hook c (add_cleanups st1 (step_cleanup k (st_id s))) HAfterStep (st_id s)) as [[st3 ra] ea] eqn:E3.
-      apply run_hook_grows in E3; [|reflexivity].
+      apply (run_hook_grows _ Hna) in E3; [|reflexivity].
       intros E; inversion E; subst.
       eapply grows_trans; [eassumption|]. eapply grows_trans; [apply add_cleanups_grows | eassumption]. }
   destruct (st_kind s) eqn:K; try (apply D; assumption).
   intros E; inversion E; subst. apply grows_refl.
 Qed.
 
-Lemma steps_loop_grows c wip dry scid steps : forall st l st' l' sts ev,
+Lemma steps_loop_grows c (Hna : no_hook_aborts c) wip dry scid steps : forall st l st' l' sts ev,
   na_steps steps = true ->
   steps_loop c st wip dry scid l steps = (st', l', sts, ev) -> grows st st'.
 Proof.
@@ -95,7 +98,7 @@ Proof.
   - cbn in Hn. apply andb_true_iff in Hn as [Hs Hr]. apply negb_true_iff in Hs.
     destruct (l_run_steps l).
     + destruct (run_step c st wip scid s) as [[[st1 status] skip] ev1] eqn:E1.
-      apply run_step_grows in E1; [|assumption].
+      apply (run_step_grows _ Hna) in E1; [|assumption].
       match goal with |- context [steps_loop c st1 wip dry scid ?L r] =>
         destruct (steps_loop c st1 wip dry scid L r) as [[[st2 l2] sts2] ev2] eqn:E2 end.
       intros E; inversion E; subst. eapply grows_trans; [eassumption | eapply IH; eauto].
@@ -116,7 +119,7 @@ Proof.
   - intros X; inversion X; subst. cbn in A2. rewrite A1, A2. apply state_eta.
 Qed.
 
-Lemma run_scenario_frame c st id all_steps oe eff own st' res fld ev :
+Lemma run_scenario_frame c (Hna : no_hook_aborts c) st id all_steps oe eff own st' res fld ev :
   na_steps all_steps = true ->
   run_scenario c st id all_steps oe eff own = (st', res, fld, ev) -> st' = st.
 Proof.
@@ -128,9 +131,9 @@ Proof.
       else (push st, false, [])) = (st1, hf, e) -> grows (push st) st1).
   { intros st1 hf e. destruct hc.
     - destruct (run_tag_hooks c (push st) HBeforeTag own) as [[sa b1] e1] eqn:E1.
-      apply run_tag_hooks_grows in E1; [|reflexivity].
+      apply (run_tag_hooks_grows _ Hna) in E1; [|reflexivity].
       destruct (run_hook c sa HBeforeScenario id) as [[sb b2] e2] eqn:E2.
-      apply run_hook_grows in E2; [|reflexivity].
+      apply (run_hook_grows _ Hna) in E2; [|reflexivity].
       intros E; inversion E; subst. eapply grows_trans; eauto.
     - intros E; inversion E; subst. apply grows_refl. }
   match goal with |- context [if hc then ?A else ?B] => destruct (if hc then A else B) as [[st1 hf] evb] eqn:E1 end.
@@ -141,16 +144,16 @@ Proof.
   { unfold scenario_steps in E2.
     match type of E2 with (if ?b then _ else _) = _ => destruct b end.
     - inversion E2; subst. apply grows_refl.
-    - eapply steps_loop_grows; eauto. }
+    - eapply (steps_loop_grows _ Hna); eauto. }
   assert (G3 : forall st3 hf2 e, (if hc then
         let '(sa, b1, e1) := run_hook c st2 HAfterScenario id in
         let '(sb, b2, e2) := run_tag_hooks c sa HAfterTag own in (sb, hf || b1 || b2, e1 ++ e2)
       else (st2, hf, [])) = (st3, hf2, e) -> grows st2 st3).
   { intros st3 hf2 e. destruct hc.
     - destruct (run_hook c st2 HAfterScenario id) as [[sa b1] e1] eqn:E3.
-      apply run_hook_grows in E3; [|reflexivity].
+      apply (run_hook_grows _ Hna) in E3; [|reflexivity].
       destruct (run_tag_hooks c sa HAfterTag own) as [[sb b2] e2] eqn:E4.
-      apply run_tag_hooks_grows in E4; [|reflexivity].
+      apply (run_tag_hooks_grows _ Hna) in E4; [|reflexivity].
       intros E; inversion E; subst. eapply grows_trans; eauto.
     - intros E; inversion E; subst. apply grows_refl. }
   match goal with |- context [if hc then ?A else ?B] => destruct (if hc then A else B) as [[st3 hf2] eva] eqn:E3 end.
@@ -161,7 +164,7 @@ Proof.
   eapply grows_trans; [eassumption|]. eapply grows_trans; eassumption.
 Qed.
 
-Lemma run_rows_frame c all_steps oe anc (Hn : na_steps all_steps = true) rows : forall st stopped st' rs fld ev,
+Lemma run_rows_frame c (Hna : no_hook_aborts c) all_steps oe anc (Hn : na_steps all_steps = true) rows : forall st stopped st' rs fld ev,
   run_rows c st all_steps oe anc rows stopped = (st', rs, fld, ev) -> st' = st.
 Proof.
   induction rows as [|rw r IH]; intros st stopped st' rs fld ev; cbn [run_rows].
@@ -171,29 +174,29 @@ Proof.
       intros E; inversion E; subst. eapply IH; eauto.
     + destruct (run_scenario c st (rw_id rw) all_steps oe (rw_tags rw ++ anc) (rw_tags rw))
         as [[[st1 res] fld1] ev1] eqn:E1.
-      apply run_scenario_frame in E1; [|assumption]. subst st1.
+      apply (run_scenario_frame _ Hna) in E1; [|assumption]. subst st1.
       match goal with |- context [run_rows c st all_steps oe anc r ?B] =>
         destruct (run_rows c st all_steps oe anc r B) as [[[st2 rs2] f2] ev2] eqn:E2 end.
       intros E; inversion E; subst. eapply IH; eauto.
 Qed.
 
-Lemma run_sitem_frame c st bg anc it st' res fld ev :
+Lemma run_sitem_frame c (Hna : no_hook_aborts c) st bg anc it st' res fld ev :
   na_steps bg = true -> na_sitem it = true ->
   run_sitem c st bg anc it = (st', res, fld, ev) -> st' = st.
 Proof.
   intros Hb Hi. destruct it as [s|o]; cbn [run_sitem na_sitem] in *.
   - match goal with |- context [run_scenario ?a ?b ?c0 ?d ?e ?f ?g] =>
       destruct (run_scenario a b c0 d e f g) as [[[st1 r1] f1] e1] eqn:E1 end.
-    apply run_scenario_frame in E1; [|rewrite na_steps_app, Hb, Hi; reflexivity].
+    apply (run_scenario_frame _ Hna) in E1; [|rewrite na_steps_app, Hb, Hi; reflexivity].
     intros E; inversion E; subst. reflexivity.
   - unfold run_outline.
     match goal with |- context [run_rows ?a ?b ?c0 ?d ?e ?f ?g] =>
       destruct (run_rows a b c0 d e f g) as [[[st1 r1] f1] e1] eqn:E1 end.
-    apply run_rows_frame in E1; [|rewrite na_steps_app, Hb, Hi; reflexivity].
+    apply (run_rows_frame _ Hna) in E1; [|rewrite na_steps_app, Hb, Hi; reflexivity].
     intros E; inversion E; subst. reflexivity.
 Qed.
 
-Lemma run_sitems_frame c bg anc (Hb : na_steps bg = true) items : forall st stopped st' rs fld ev,
+Lemma run_sitems_frame c (Hna : no_hook_aborts c) bg anc (Hb : na_steps bg = true) items : forall st stopped st' rs fld ev,
   forallb na_sitem items = true ->
   run_sitems c st bg anc items stopped = (st', rs, fld, ev) -> st' = st.
 Proof.
@@ -203,7 +206,7 @@ Proof.
     + destruct (run_sitems c st bg anc r true) as [[[st2 rs2] f2] ev2] eqn:E2.
       intros E; inversion E; subst. eapply IH; eauto.
     + destruct (run_sitem c st bg anc it) as [[[st1 res] fld1] ev1] eqn:E1.
-      apply run_sitem_frame in E1; try assumption. subst st1.
+      apply (run_sitem_frame _ Hna) in E1; try assumption. subst st1.
       match goal with |- context [run_sitems c st bg anc r ?B] =>
         destruct (run_sitems c st bg anc r B) as [[[st2 rs2] f2] ev2] eqn:E2 end.
       intros E; inversion E; subst. eapply IH; eauto.
@@ -226,26 +229,26 @@ Definition close_phase (c : config) (st2 : rstate) (hc hf : bool) (ha : hookname
     (sb, hf || b1 || b2, e1 ++ e2)
   else (st2, hf, []).
 
-Lemma open_phase_grows c st0 hc hb id tags st1 hf e :
+Lemma open_phase_grows c (Hna : no_hook_aborts c) st0 hc hb id tags st1 hf e :
   is_all_hook hb = false -> open_phase c st0 hc hb id tags = (st1, hf, e) -> grows st0 st1.
 Proof.
   intros Hh. unfold open_phase. destruct hc.
   - destruct (run_tag_hooks c st0 HBeforeTag tags) as [[sa b1] e1] eqn:E1.
-    apply run_tag_hooks_grows in E1; [|reflexivity].
+    apply (run_tag_hooks_grows _ Hna) in E1; [|reflexivity].
     destruct (run_hook c sa hb id) as [[sb b2] e2] eqn:E2.
-    apply run_hook_grows in E2; [|assumption].
+    apply (run_hook_grows _ Hna) in E2; [|assumption].
     intros E; inversion E; subst. eapply grows_trans; eauto.
   - intros E; inversion E; subst. apply grows_refl.
 Qed.
 
-Lemma close_phase_grows c st2 hc hf ha id tags st3 hf2 e :
+Lemma close_phase_grows c (Hna : no_hook_aborts c) st2 hc hf ha id tags st3 hf2 e :
   is_all_hook ha = false -> close_phase c st2 hc hf ha id tags = (st3, hf2, e) -> grows st2 st3.
 Proof.
   intros Hh. unfold close_phase. destruct hc.
   - destruct (run_hook c st2 ha id) as [[sa b1] e1] eqn:E1.
-    apply run_hook_grows in E1; [|assumption].
+    apply (run_hook_grows _ Hna) in E1; [|assumption].
     destruct (run_tag_hooks c sa HAfterTag tags) as [[sb b2] e2] eqn:E2.
-    apply run_tag_hooks_grows in E2; [|reflexivity].
+    apply (run_tag_hooks_grows _ Hna) in E2; [|reflexivity].
     intros E; inversion E; subst. eapply grows_trans; eauto.
   - intros E; inversion E; subst. apply grows_refl.
 Qed.
@@ -275,7 +278,7 @@ Proof.
     destruct (pop st2) as [[st4 cr] evp]. eauto.
 Qed.
 
-Lemma run_rule_frame c st r anc inh fhb st' res fld ev :
+Lemma run_rule_frame c (Hna : no_hook_aborts c) st r anc inh fhb st' res fld ev :
   na_steps inh = true -> na_rule r = true ->
   run_rule c st r anc inh fhb = (st', res, fld, ev) -> st' = st.
 Proof.
@@ -283,30 +286,30 @@ Proof.
   pose proof (run_rule_phases c st r anc inh fhb) as P. cbv zeta in P.
   destruct (open_phase c (push st) (negb (c_dry c) && rule_runs c anc r) HBeforeRule (r_id r) (r_tags r))
     as [[st1 hf] evb] eqn:E1.
-  apply open_phase_grows in E1; [|reflexivity].
+  apply (open_phase_grows _ Hna) in E1; [|reflexivity].
   match type of P with context [run_sitems ?a ?b ?c0 ?d ?e ?f] =>
     destruct (run_sitems a b c0 d e f) as [[[st2 rs] itf] evi] eqn:E2 end.
-  apply run_sitems_frame in E2; [|rewrite na_steps_app, Hi, Hb; reflexivity|assumption]. subst st2.
+  apply (run_sitems_frame _ Hna) in E2; [|rewrite na_steps_app, Hi, Hb; reflexivity|assumption]. subst st2.
   match type of P with context [close_phase ?a ?b ?c0 ?d ?e ?f ?g] =>
     destruct (close_phase a b c0 d e f g) as [[st3 hf2] eva] eqn:E3 end.
-  apply close_phase_grows in E3; [|reflexivity].
+  apply (close_phase_grows _ Hna) in E3; [|reflexivity].
   destruct (pop st3) as [[st4 cr] evp] eqn:E4.
   destruct P as (res0 & fld0 & ev0 & P & _). rewrite P. intros E; inversion E; subst.
   eapply pop_after_push; [|eassumption]. eapply grows_trans; eassumption.
 Qed.
 
-Lemma run_fitem_frame c st bg hb anc it st' res fld ev :
+Lemma run_fitem_frame c (Hna : no_hook_aborts c) st bg hb anc it st' res fld ev :
   na_steps bg = true -> na_fitem it = true ->
   run_fitem c st bg hb anc it = (st', res, fld, ev) -> st' = st.
 Proof.
   intros Hb Hi. destruct it as [i|r]; cbn [run_fitem na_fitem] in *.
   - destruct (run_sitem c st bg anc i) as [[[st1 r1] f1] e1] eqn:E1.
-    apply run_sitem_frame in E1; try assumption. intros E; inversion E; subst. reflexivity.
+    apply (run_sitem_frame _ Hna) in E1; try assumption. intros E; inversion E; subst. reflexivity.
   - destruct (run_rule c st r anc bg hb) as [[[st1 r1] f1] e1] eqn:E1.
-    apply run_rule_frame in E1; try assumption. intros E; inversion E; subst. reflexivity.
+    apply (run_rule_frame _ Hna) in E1; try assumption. intros E; inversion E; subst. reflexivity.
 Qed.
 
-Lemma run_fitems_frame c bg hb anc (Hb : na_steps bg = true) items : forall st stopped st' rs fld ev,
+Lemma run_fitems_frame c (Hna : no_hook_aborts c) bg hb anc (Hb : na_steps bg = true) items : forall st stopped st' rs fld ev,
   forallb na_fitem items = true ->
   run_fitems c st bg hb anc items stopped = (st', rs, fld, ev) -> st' = st.
 Proof.
@@ -316,7 +319,7 @@ Proof.
     + destruct (run_fitems c st bg hb anc r true) as [[[st2 rs2] f2] ev2] eqn:E2.
       intros E; inversion E; subst. eapply IH; eauto.
     + destruct (run_fitem c st bg hb anc it) as [[[st1 res] fld1] ev1] eqn:E1.
-      apply run_fitem_frame in E1; try assumption. subst st1.
+      apply (run_fitem_frame _ Hna) in E1; try assumption. subst st1.
       match goal with |- context [run_fitems c st bg hb anc r ?B] =>
         destruct (run_fitems c st bg hb anc r B) as [[[st2 rs2] f2] ev2] eqn:E2 end.
       intros E; inversion E; subst. eapply IH; eauto.
@@ -347,20 +350,20 @@ Proof.
     destruct (pop st2) as [[st4 cr] evp]. eauto.
 Qed.
 
-Lemma run_feature_frame c st f st' res fld ev :
+Lemma run_feature_frame c (Hna : no_hook_aborts c) st f st' res fld ev :
   na_feature f = true -> run_feature c st f = (st', res, fld, ev) -> st' = st.
 Proof.
   intros Hf. unfold na_feature in Hf. apply andb_true_iff in Hf as [Hb Hits].
   pose proof (run_feature_phases c st f) as P. cbv zeta in P.
   destruct (open_phase c (push st) (negb (c_dry c) && feature_should_run c f) HBeforeFeature (f_id f) (f_tags f))
     as [[st1 hf] evb] eqn:E1.
-  apply open_phase_grows in E1; [|reflexivity].
+  apply (open_phase_grows _ Hna) in E1; [|reflexivity].
   match type of P with context [run_fitems ?a ?b ?c0 ?d ?e ?f0 ?g] =>
     destruct (run_fitems a b c0 d e f0 g) as [[[st2 rs] itf] evi] eqn:E2 end.
-  apply run_fitems_frame in E2; try assumption. subst st2.
+  apply (run_fitems_frame (items_cfg c (negb (c_dry c) && feature_should_run c f)) Hna) in E2; try assumption. subst st2.
   match type of P with context [close_phase ?a ?b ?c0 ?d ?e ?f0 ?g] =>
     destruct (close_phase a b c0 d e f0 g) as [[st3 hf2] eva] eqn:E3 end.
-  apply close_phase_grows in E3; [|reflexivity].
+  apply (close_phase_grows _ Hna) in E3; [|reflexivity].
   destruct (pop st3) as [[st4 cr] evp] eqn:E4.
   destruct P as (res0 & fld0 & ev0 & P & _). rewrite P. intros E; inversion E; subst.
   eapply pop_after_push; [|eassumption]. eapply grows_trans; eassumption.
@@ -370,6 +373,7 @@ Qed.
 Section Local.
 Variable cfg : config.
 Variable f2 : hookname -> nat -> bool.
+Hypothesis Hna : no_hook_aborts cfg.
 Let cfg2 := set_faults cfg f2.
 
 Definition same_at (h : hookname) (k : nat) : Prop := c_faults cfg h k = f2 h k.
@@ -636,8 +640,8 @@ Proof.
         as [[[sa resa] fa] ea] eqn:Ea.
       destruct (run_scenario cfg2 st (rw_id rw) all_steps oe (rw_tags rw ++ anc) (rw_tags rw))
         as [[[sb resb] fb] eb] eqn:Eb.
-      pose proof (run_scenario_frame _ _ _ _ _ _ _ _ _ _ _ Hn Ea). subst sa.
-      pose proof (run_scenario_frame _ _ _ _ _ _ _ _ _ _ _ Hn Eb). subst sb.
+      pose proof (run_scenario_frame _ Hna _ _ _ _ _ _ _ _ _ _ Hn Ea). subst sa.
+      pose proof (run_scenario_frame cfg2 Hna _ _ _ _ _ _ _ _ _ _ Hn Eb). subst sb.
       sf. rewrite Hstop, Hab. cbn [orb]. rewrite !andb_false_r.
       destruct (run_rows cfg st all_steps oe anc r false) as [[[sc rc] fc] ec] eqn:Ec.
       destruct (run_rows cfg2 st all_steps oe anc r false) as [[[sd rd] fd] ed] eqn:Ed.
@@ -678,8 +682,8 @@ Proof.
       eapply IH; eauto.
     + destruct (run_sitem cfg st bg anc it) as [[[sa resa] fa] ea] eqn:Ea.
       destruct (run_sitem cfg2 st bg anc it) as [[[sb resb] fb] eb] eqn:Eb.
-      pose proof (run_sitem_frame _ _ _ _ _ _ _ _ _ Hb Hi Ea). subst sa.
-      pose proof (run_sitem_frame _ _ _ _ _ _ _ _ _ Hb Hi Eb). subst sb.
+      pose proof (run_sitem_frame _ Hna _ _ _ _ _ _ _ _ Hb Hi Ea). subst sa.
+      pose proof (run_sitem_frame cfg2 Hna _ _ _ _ _ _ _ _ Hb Hi Eb). subst sb.
       sf. rewrite Hstop, Hab. cbn [orb]. rewrite !andb_false_r.
       destruct (run_sitems cfg st bg anc r false) as [[[sc rc] fc] ec] eqn:Ec.
       destruct (run_sitems cfg2 st bg anc r false) as [[[sd rd] fd] ed] eqn:Ed.
@@ -704,7 +708,7 @@ Proof.
     rewrite open_phase_local in P2 by assumption.
     destruct (open_phase cfg (push st) (negb (c_dry cfg) && rule_runs cfg anc r) HBeforeRule (r_id r) (r_tags r))
       as [[st1 hf] evb] eqn:Eo.
-    apply open_phase_grows in Eo; [|reflexivity]. destruct Eo as (Ab & _). cbn in Ab.
+    apply (open_phase_grows _ Hna) in Eo; [|reflexivity]. destruct Eo as (Ab & _). cbn in Ab.
     match type of P1 with context [run_sitems ?a ?b ?c0 ?d ?e ?f] =>
       destruct (run_sitems a b c0 d e f) as [[[sa ra] fa] ea] eqn:Ea end.
     match type of P2 with context [run_sitems ?a ?b ?c0 ?d ?e ?f] =>
@@ -751,8 +755,8 @@ Proof.
       eapply IH; eauto.
     + destruct (run_fitem cfg st bg hb anc it) as [[[sa resa] fa] ea] eqn:Ea.
       destruct (run_fitem cfg2 st bg hb anc it) as [[[sb resb] fb] eb] eqn:Eb.
-      pose proof (run_fitem_frame _ _ _ _ _ _ _ _ _ _ Hb Hi Ea). subst sa.
-      pose proof (run_fitem_frame _ _ _ _ _ _ _ _ _ _ Hb Hi Eb). subst sb.
+      pose proof (run_fitem_frame _ Hna _ _ _ _ _ _ _ _ _ Hb Hi Ea). subst sa.
+      pose proof (run_fitem_frame cfg2 Hna _ _ _ _ _ _ _ _ _ Hb Hi Eb). subst sb.
       sf. rewrite Hstop, Hab. cbn [orb]. rewrite !andb_false_r.
       destruct (run_fitems cfg st bg hb anc r false) as [[[sc rc] fc] ec] eqn:Ec.
       destruct (run_fitems cfg2 st bg hb anc r false) as [[[sd rd] fd] ed] eqn:Ed.
@@ -768,6 +772,7 @@ End Local.
 Section LocalRun.
 Variable cfg : config.
 Variable f2 : hookname -> nat -> bool.
+Hypothesis Hna : no_hook_aborts cfg.
 Let cfg2 := set_faults cfg f2.
 Hypothesis Hstop : c_stop cfg = false.
 Local Notation same_at := (same_at cfg f2).
@@ -819,7 +824,7 @@ Proof.
     rewrite open_phase_local in P2 by assumption.
     destruct (open_phase cfg (push st) (negb (c_dry cfg) && feature_should_run cfg f) HBeforeFeature (f_id f) (f_tags f))
       as [[st1 hf] evb] eqn:Eo.
-    apply open_phase_grows in Eo; [|reflexivity]. destruct Eo as (Ab & _). cbn in Ab.
+    apply (open_phase_grows _ Hna) in Eo; [|reflexivity]. destruct Eo as (Ab & _). cbn in Ab.
     match type of P1 with context [run_fitems ?a ?b ?c0 ?d ?e ?f0 ?g] =>
       destruct (run_fitems a b c0 d e f0 g) as [[[sa ra] fa] ea] eqn:Ea end.
     match type of P2 with context [run_fitems ?a ?b ?c0 ?d ?e ?f0 ?g] =>
@@ -831,7 +836,7 @@ Proof.
     destruct (pop sc) as [[se cre] eve]. destruct (pop sd) as [[sf0 crf] evf].
     destruct P1 as (x1 & y1 & z1 & P1 & Q1). destruct P2 as (x2 & y2 & z2 & P2 & Q2).
     rewrite P1 in E1. rewrite P2 in E2. inversion E1; inversion E2; subst.
-    eapply (RunnerLocal.sim_run_fitems (items_cfg cfg (negb (c_dry cfg) && feature_should_run cfg f)) f2 Hstop); [ | | |exact Ea|exact Eb]; try assumption.
+    eapply (RunnerLocal.sim_run_fitems (items_cfg cfg (negb (c_dry cfg) && feature_should_run cfg f)) f2 Hna Hstop); [ | | |exact Ea|exact Eb]; try assumption.
     congruence.
 Qed.
 
@@ -846,8 +851,8 @@ Proof.
   - cbn in Hn. apply andb_true_iff in Hn as [Hf Hr].
     destruct (run_feature cfg st f) as [[[sa resa] fa] ea] eqn:Ea.
     destruct (run_feature cfg2 st f) as [[[sb resb] fb] eb] eqn:Eb.
-    pose proof (run_feature_frame _ _ _ _ _ _ _ Hf Ea). subst sa.
-    pose proof (run_feature_frame _ _ _ _ _ _ _ Hf Eb). subst sb.
+    pose proof (run_feature_frame _ Hna _ _ _ _ _ _ Hf Ea). subst sa.
+    pose proof (run_feature_frame cfg2 Hna _ _ _ _ _ _ Hf Eb). subst sb.
     sf. rewrite Hstop, Hab. cbn [orb]. rewrite !andb_false_r. cbn [negb].
     destruct (run_features cfg st r true) as [[[sc rc] fc] ec] eqn:Ec.
     destruct (run_features cfg2 st r true) as [[[sd rd] fd] ed] eqn:Ed.
@@ -868,8 +873,9 @@ Proof.
   rewrite (run_hook_local _ HBeforeAll 0) by (unfold same_at; congruence).
   destruct (run_hook cfg (mkState false [[]]) HBeforeAll 0) as [[st1 b1] ev1] eqn:E0.
   assert (Hab : aborted st1 = false).
-  { unfold run_hook in E0. rewrite F1 in E0.
-    destruct (c_dry cfg || negb (c_hooks cfg HBeforeAll)); inversion E0; subst; reflexivity. }
+  { unfold run_hook in E0. rewrite F1, (Hna HBeforeAll 0) in E0.
+    destruct (c_dry cfg || negb (c_hooks cfg HBeforeAll)); inversion E0; subst; [reflexivity|].
+    cbn [set_aborted aborted orb]. rewrite orb_false_r. unfold add_cleanups. cbn. reflexivity. }
   rewrite Hab. cbn [negb].
   destruct (run_features cfg st1 fs true) as [[[sa ra] fa] ea] eqn:Ea.
   destruct (run_features cfg2 st1 fs true) as [[[sb rb] fb] eb] eqn:Eb.
@@ -896,14 +902,14 @@ Qed.
 
 (* a feature none of whose sites is affected: same result, whatever happened elsewhere *)
 Corollary unaffected_feature_keeps_its_result cfg f2 fs rs1 v1 a1 e1 rs2 v2 a2 e2 :
-  c_stop cfg = false -> forallb na_feature fs = true ->
+  no_hook_aborts cfg -> c_stop cfg = false -> forallb na_feature fs = true ->
   c_faults cfg HBeforeAll 0 = false -> f2 HBeforeAll 0 = false ->
   run_model cfg fs = (rs1, v1, a1, e1) ->
   run_model (set_faults cfg f2) fs = (rs2, v2, a2, e2) ->
   forall n f a b, nth_error fs n = Some f -> nth_error rs1 n = Some a -> nth_error rs2 n = Some b ->
     agree_feature cfg f2 f -> a = b.
 Proof.
-  intros Hs Hn F1 F2 E1 E2 n f a b X Y Z Hag.
-  pose proof (hook_faults_do_not_interfere cfg f2 Hs fs _ _ _ _ _ _ _ _ Hn F1 F2 E1 E2) as S.
+  intros Hna Hs Hn F1 F2 E1 E2 n f a b X Y Z Hag.
+  pose proof (hook_faults_do_not_interfere cfg f2 Hna Hs fs _ _ _ _ _ _ _ _ Hn F1 F2 E1 E2) as S.
   apply sim_list_nth in S as (_ & _ & S). exact (proj1 (S _ _ _ _ X Y Z) Hag).
 Qed.
